@@ -14,7 +14,7 @@ def set_world(w):
 
 
 class VerifAct(ml_actions.Action):
-    SYNC = True
+    _SYNC = True
 
     def __init__(self, t='', i=None, x=None, p=None):
         self.t = t
@@ -23,7 +23,7 @@ class VerifAct(ml_actions.Action):
         self.p = p
 
     def is_sync(self):
-        return self.SYNC
+        return self._SYNC
 
     def run(self, context):
         w = _WORLD[0]
@@ -37,7 +37,7 @@ class VerifAct(ml_actions.Action):
 
 
 class VerifAsyncAct(VerifAct):
-    SYNC = False
+    _SYNC = False
 
 
 def make_result(outcome):
